@@ -200,6 +200,7 @@ var Mutants = map[string][]Mutant{
 		{"Close retags one end only", "path.go", `\t\tp\.d\[len\(p\.d\)-1\] = CloseCmd\n\t\tp\.d\[len\(p\.d\)-cmdLen\(LineToCmd\)\] = CloseCmd\n`, "\t\tp.d[len(p.d)-1] = CloseCmd\n", "E2.retag"},
 	},
 	"C11": {
+		{"parser forgets the position of an empty closed sub-path (reverts fix db9f29f)", "path.go", `\t\t\temptyClosed = !p\.Pos\(\)\.Equals\(p1\)\n`, "", "E11.empty-close-keeps-position"},
 		{"quoted url() reference sliced without its own length test (reverts fix 379229e)", "svg.go", `\} else if 7 < len\(val\) \{\n[^\n]*\n(\t\t\t\treturn val\[6 : len\(val\)-2\])`, "} else {\n$1", "E4.slice-length-guarded"},
 		{"decimal formatter tests the signed value against 1", "util.go", `if a := math\.Abs\(float64\(f\)\); 1\.0 <= a && !math\.IsInf\(a, 0\) \{`, "if a := float64(f); 1.0 <= a && !math.IsInf(a, 1) {", "E11.magnitude-test-on-abs"},
 		{"S reflects when the stored last command is a cubic", "path.go", `if prevCmd == 'C' \|\| prevCmd == 'c' \|\| prevCmd == 'S' \|\| prevCmd == 's' \{`, "if 0 < len(p.d) && p.d[len(p.d)-1] == CubeToCmd {", "E11.svg-smooth"},
@@ -372,6 +373,7 @@ var Mutants = map[string][]Mutant{
 		{"vertical fonts written as horizontal", "renderers/pdf/writer.go", `w\.writeFonts\(w\.fontsV, true\)`, `w.writeFonts(w.fontsV, false)`, "E5.fontmaps"},
 	},
 	"C19": {
+		{"parser forgets the position of an empty closed sub-path (reverts fix db9f29f)", "path.go", `\t\t\temptyClosed = !p\.Pos\(\)\.Equals\(p1\)\n`, "", "E11.empty-close-keeps-position"},
 		{"viewBox origin put into the coordinate view", "svg.go", `m := Identity\.Scale\(width/viewbox\[2\], height/viewbox\[3\]\)\.Translate\(-viewbox\[0\], -viewbox\[1\]\)\n\t\tsvg\.ctx\.SetView\(m\)`, "m := Identity.Scale(width/viewbox[2], height/viewbox[3])\n\t\tsvg.ctx.SetView(m)\n\t\tsvg.ctx.SetCoordView(Identity.Translate(-viewbox[0], -viewbox[1]))", "E11.viewbox-in-one-matrix"},
 		{"viewBox split at single spaces (reverts fix 67b6a25)", "svg.go", `(?s)vals := strings\.FieldsFunc\(attrViewBox, func\(r rune\) bool \{\n[^\n]*\n\t\t\}\)`, "vals := strings.Split(attrViewBox, \" \")", "E11.viewbox-separators"},
 		{"empty attribute value taken for a missing one", "svg.go", `if len\(val\) < 2 \{`, "if len(val) <= 2 {", "E11.empty-value-accepted"},
